@@ -194,6 +194,13 @@ def check_sums(F, S, tss, classes, s, roles, inv, post_expect, out_expect, rid, 
                 # only a quantity that is non-negative by what it IS (a sum of squared deviations) may be clamped at 0 for free;
                 # clamping a signed sum or a mean changes it
                 ok = u.eq(got, want) or (r_ in NONNEG_ROLES and inactive_clamp(got, want, u.eq))
+                if ok:
+                    import specs
+                    hz = specs.float_hazard(heap.get("self." + b[r_], ("pre", "self." + b[r_])), want)
+                    if hz:
+                        ok = False
+                        fails.append("%s%s: `%s'` is computed with %s: equal to the window functional in real arithmetic only" % (which, " (first call)" if zero else "", b[r_], hz))
+                        continue
                 if not ok:
                     fails.append("%s%s: `%s'` = %s, but the window functional requires %s" % (which, " (first call)" if zero else "", b[r_], show(got)[:110], show(want)[:90]))
             oe = out_expect(which, {k: sub(v, gm) for k, v in g.items()}, exp)
@@ -211,6 +218,11 @@ def check_sums(F, S, tss, classes, s, roles, inv, post_expect, out_expect, rid, 
                         alts.append(sub(got, {x: keep}))
                 if not any(u.N.key(a_) == u.N.key(oe) or u.eq(a_, oe) for a_ in alts):
                     fails.append("%s%s: output %s is not %s" % (which, " (first call)" if zero else "", show(got)[:110], show(oe)[:90]))
+                else:
+                    import specs
+                    hz = specs.float_hazard(ret, oe)
+                    if hz:
+                        fails.append("%s%s: the output is computed with %s: equal to the statistic in real arithmetic only" % (which, " (first call)" if zero else "", hz))
         if best is None or len(fails) < len(best[1]):
             best = (b, fails)
         if not fails:
